@@ -105,6 +105,7 @@ type Env struct {
 	Violations []Violation
 	Probes     map[string]int // "rare branch reached" counters
 	Faults     map[string]int // injected faults that actually fired
+	Debug      bool           // replay / trace mode: worlds may record wire bytes into Notes
 	NonTrivial bool           // set by the world when the run exercised the property meaningfully
 	ShapeExtra string         // appended to the shape key (e.g. fault kinds fired)
 	Notes      []string
@@ -220,6 +221,8 @@ func RunOne(t *testing.T, w *World, o RunOpts) *RunResult {
 				Probes: map[string]int{}, Faults: map[string]int{}}
 			env.Sched = sched.New(n, st, sched.DefaultKnobs())
 			env.Sched.KeepTrace = o.KeepTrace
+			env.Debug = o.KeepTrace
+			n.Record = o.KeepTrace
 			func() {
 				defer func() {
 					for i := len(env.cleanup) - 1; i >= 0; i-- {
@@ -265,4 +268,40 @@ func (r *RunResult) Failing() (Violation, bool) {
 		return Violation{Rule: "bubble-deadlock", Detail: r.Deadlock}, true
 	}
 	return Violation{}, false
+}
+
+// FailingUnknown is like Failing but skips violations listed as known
+// findings: it returns (first unlisted violation, true), or (zero, true) when
+// the run failed only with listed findings, or (zero, false) for a clean run.
+func (r *RunResult) FailingUnknown(known []knownFinding, prop string) (Violation, bool) {
+	if len(r.Violations) == 0 {
+		return r.Failing()
+	}
+	for _, v := range r.Violations {
+		if matchKnown(known, prop, v) == nil {
+			return v, true
+		}
+	}
+	return Violation{}, true
+}
+
+// HasRule reports whether the run failed the given oracle rule.
+func (r *RunResult) HasRule(rule string) bool {
+	for _, v := range r.Violations {
+		if v.Rule == rule {
+			return true
+		}
+	}
+	v, bad := r.Failing()
+	return bad && v.Rule == rule
+}
+
+func (r *RunResult) ViolationOf(rule string) Violation {
+	for _, v := range r.Violations {
+		if v.Rule == rule {
+			return v
+		}
+	}
+	v, _ := r.Failing()
+	return v
 }
